@@ -1,15 +1,24 @@
 (* Extraction of the float instance of the model for the volume correspondence check.
    Only the stock directive files are used; no Extract Constant / Extract Inductive of ours. *)
-Require Import BT.Num BT.Base BT.Records BT.Engine BT.Ops.
+Require Import BT.Num BT.Base BT.Cal BT.Records BT.Engine BT.Ops BT.Algos.
 From Coq Require Import ExtrOcamlBasic ExtrOCamlFloats ExtrOCamlInt63.
-From Coq Require Import List.
+From Coq Require Import List ZArith.
+Import ListNotations.
+Local Open Scope Z_scope.
 Extraction Language OCaml.
 
-Definition paper_depth : nat := 8.
-Definition f_paper_step : option nat -> tree FNumI unit -> result (tree FNumI unit) :=
+Definition fstate := astate FNumI.
+(* engine-level histories: bare StrategyBase nodes, so Strategy.run is a no-op *)
+Definition paper_depth : nat := 8%nat.
+Definition f_paper_step : option nat -> tree FNumI fstate -> result (tree FNumI fstate) :=
   paper_step_l (fun _ t => Ok t) paper_depth.
-Definition f_build := @build FNumI unit.
-Definition f_apply_op := @apply_op FNumI unit f_paper_step.
+Definition f_build := @build FNumI fstate.
+Definition f_apply_op := @apply_op FNumI fstate f_paper_step.
 Definition f_comm := @comm_eval FNumI.
+Definition f_backtest := @backtest FNumI.
+Definition f_cal (ts : Z) : list Z :=
+  [year_of ts; month_of ts; dom_of ts; quarter_of ts; week_of ts; weekday_of_days (day_of ts);
+   iso_year_of_days (day_of ts); day_of ts].
+Definition f_sub_offset := sub_offset.
 
-Extraction "model.ml" f_build f_apply_op f_comm f_paper_step.
+Extraction "model.ml" f_build f_apply_op f_comm f_paper_step f_backtest f_cal f_sub_offset empty_temp.
